@@ -76,6 +76,11 @@ CHECKS = {
             "The specification states what 'lossless image' means as set equations over rows; TLC evaluates them on the rows of every recorded schema against a census the harness takes from the compiled module independently of relmod (applications, mixins, endpoints, events, REST data, statements with 0-based position paths incl. one row per alt choice, types, table keys, fields, enum items, aliases, tags, string annotations, status and type of simple return payloads). Inputs are TLC-generated programs over all declaration kinds plus call-graph programs nested up to 6 blocks deep; Normalize runs twice per model in a guarded worker (an error is an admissible refusal, a crash is not).",
             "The state-space numbers in the evidence are those of the trace-validation runs (there is no separate design-level model check: the relation is stateless). Parameters, views, array annotations and source-context relations are not compared.",
             "DESIGN.md §6 C17"),
+    "C16": ("model_checking",
+            "TLA+ spec DbCatalog.tla (relational catalog; each emitted DDL statement an action with the database's enabling conditions; Expected(version) with transitive foreign-key types) and DbGen.tla (version histories by edit actions; intended creation script checked by TLC); the real generator's creation and delta scripts tokenised into statement events and run on the catalog machine by TLC (DbCatalogTrace.tla)",
+            "The emitted SQL is interpreted, not diffed: TLC executes every statement of every script on the catalog machine, which flags a table created twice or before a table it references, unknown or untyped columns, missing constraints, and compares the resulting catalog with Expected(version): create(v) must reach Expected(v); create(old) followed by delta(old,new) must leave every table of the new version with exactly its columns, types and keys; delta(v,v) must change nothing. Histories are TLC-generated: up to 4 tables, acyclic foreign keys to keys, plain columns and other foreign keys, composite keys, autoincrement, sized strings, 2-3 edits (add/drop/retype column, add/drop table, toggle key, add/drop reference, toggle autoincrement), tables and columns in shuffled text order, every third history spread over two files.",
+            "Postgres semantics are modelled for existence, dependency order and types only; the evidence's state counts are those of the trace-validation runs plus the simulation of DbGen with the CreateIsExact invariant.",
+            "DESIGN.md §6 C16"),
 }
 
 PENDING = {}
